@@ -61,7 +61,7 @@ def run(chk):
     chk.cov.update({"states": sum(m.get("distinct", 0) for m in mcs) + r["states"], "transitions": sum(m.get("generated", 0) for m in mcs) + r["states"],
                     "traces_validated_against_impl": 2 * vlib.NCPU, "evaluations": r["events"], "distinct_nontrivial": r["cases"],
                     "pool_reuse_in_first_shard": {"allocations": len(news), "reused_objects": sum(1 for e in news if not e["fresh"])},
-                    "rule": "every sequence of %d record shapes out of 10 (short / pooled-size with all optional fields / pooled-size without / escaped / escaped pooled / multi-line / refused by the parser / dropped by a filter / unparsable time / e-mail) plus 20 seeded sequences of 12 per shard, as one stream over two interleaved TCP connections into one long-lived agent (GOMAXPROCS=1, collector off, so sync.Pool and the buffer pools really reuse), every third history in lock step and the others in bursts; with 1 and with 2 outputs; each record also alone on fresh allocator/parser/transforms/serializers" % (4 if chk.tier == "thorough" else 3),
+                    "rule": "every sequence of %d record shapes out of 10 (short / pooled-size with all optional fields / pooled-size without / escaped / escaped pooled / multi-line / refused by the parser / dropped by a filter / unparsable time / e-mail) plus 20 (thorough: 300) seeded sequences of 12 per shard, as one stream over two interleaved TCP connections into one long-lived agent (GOMAXPROCS=1, collector off, so sync.Pool and the buffer pools really reuse), every third history in lock step and the others in bursts; with 1 and with 2 outputs; each record also alone on fresh allocator/parser/transforms/serializers" % (4 if chk.tier == "thorough" else 3),
                     "samples": [e for e in first if e["ev"] == "Out"][:2]})
     chk.assumptions += ["the documented stateful percentage sampling is excluded (drop rate 100 in the test configuration)",
                         "fallback timestamps (time of reception) of records whose time cannot be parsed are normalised; a stale timestamp of another record would still differ from the fallback and is reported",
